@@ -19,6 +19,11 @@ structure Scalar (S : Type) where
   ofNat : Nat → S
   isFinite : S → Bool
   isNaN : S → Bool
+  /-- strict order on values (`<`), used by min / max reductions -/
+  lt : S → S → Bool := fun _ _ => false
+  neg : S → S := id
+  /-- `math.ceil` of a non-negative finite value, as a natural number -/
+  ceilNat : S → Nat := fun _ => 0
 
 /-- a masked tensor as the Python classes hold it: two tensors -/
 structure MT (S : Type) where
